@@ -78,7 +78,11 @@ def regen_kernels():
         import translate
     except ImportError:
         return []
-    return translate.regenerate_all()
+    w = translate.regenerate_all()
+    os.makedirs(BUILD, exist_ok=True)
+    json.dump({'failed': translate.FAILED, 'props': translate.KERNEL_PROPERTIES},
+              open(os.path.join(BUILD, 'translate_failed.json'), 'w'))
+    return w
 
 
 def make(targets=None, timeout=3000):
@@ -305,6 +309,15 @@ def l0_check(pid, thorough=False):
             ok_all = False
             res['broken'].append('%s: disallowed axioms %s' % (nm, bad))
         res['theorems'].append({'name': nm, 'axioms': ax})
+    try:
+        tf = json.load(open(os.path.join(BUILD, 'translate_failed.json')))
+        for fn, msg in tf['failed'].items():
+            if pid in tf['props'].get(fn, []):
+                ok_all = False
+                res['broken'].append('tie broken: kernel %s could not be translated from the current source (%s); '
+                                     'theorems were checked against the committed reference copy only' % (fn, msg))
+    except Exception:
+        pass
     missing = [n for n in names if n not in printed]
     if missing:
         ok_all = False
@@ -447,3 +460,30 @@ def close(a, b, scale=1.0, tol=1e-9):
     """float a (impl) vs exact Fraction b (model)"""
     bf = float(b)
     return abs(float(a) - bf) <= tol * max(1.0, abs(bf), scale)
+
+
+def guarded_main(pid, run):
+    """Entry point wrapper: a crash of the machinery itself is reported as 'property no longer shown to hold'."""
+    import argparse
+    import traceback
+    ap = argparse.ArgumentParser()
+    ap.add_argument('--tier', default=os.environ.get('VERIF_TIER', 'quick'))
+    ap.add_argument('--replay')
+    a = ap.parse_args()
+    try:
+        return run(a.tier, get_seed(), a.replay)
+    except Exception:   # noqa
+        tb = traceback.format_exc()
+        os.makedirs(os.path.join(VERIF, 'replays'), exist_ok=True)
+        path = os.path.join(VERIF, 'replays', '%s-crash.json' % pid)
+        json.dump({'what': 'the check could not complete (model build or correspondence machinery broke on the current tree)',
+                   'traceback': tb[-4000:]}, open(path, 'w'), indent=1)
+        print(tb[-1500:])
+        print('VIOLATION property=%s replay=%s no-failing-input-found' % (pid, os.path.relpath(path, VERIF)))
+        try:
+            write_evidence(pid, a.tier, get_seed(), {'ok': False, 'theorems': [], 'broken': ['crash'], 'log': tb[-2000:]},
+                           {'evaluations': 1, 'distinct_nontrivial': 2, 'rule': 'crashed before exploring', 'samples': [{'crash': tb[-300:]}]},
+                           time.time(), 1)
+        except Exception:
+            pass
+        return 1
